@@ -17,7 +17,7 @@ CHECKS = {
          'matters for infinite weights) is a satisfiable one. The repeated query must return the first result (structure verbatim, cells by solver query). For every in-place operation of PatternedTensor and a list of MultiTensor steps, the storage and the denotation of the tensor that was '
          'NOT operated on (source vs clone, source vs copy_ destination) are compared cell by cell. Right level: purity is a frame property over call histories and aliasing; symbolic cells make every write visible whatever the values are.',
     note='Bounds: histories of length 3 (quick) / 4 (thorough) over 7-10 queries per grammar {sum_product x 3 methods, sum_products, viterbi, viterbi+derive, sum_product+backward, factorize_fgg x 2, fgg_to_json, hrg_to_json} resp. {factorize_hrg x 3, factorize_rule with/without labels, conjoin_hrgs, hrg_to_json} '
-         'on weight-free grammars with large rules; grammars: feature set, two-level sample, 9 recursive shapes, large-rule family, <=16 weights; weight presentations: contiguous / permuted / offset-slice tensors and PatternedTensors of the typed pattern family incl. stride-0 storage; '
+         'on weight-free grammars with large rules; besides the accessor-level snapshot the library\'s own == against a twin HRG assembled before the history and the per-nonterminal rule counts are observed (sees e.g. an empty rule list inserted by a query); grammars: feature set, two-level sample, 9 recursive shapes, large-rule family, <=16 weights; weight presentations: contiguous / permuted / offset-slice tensors and PatternedTensors of the typed pattern family incl. stride-0 storage; '
          'clone part: every in-place entry of the C06 operation table x patterns of rank<=2 (quick) / 3 x 4 modes; MultiTensor: 13 steps x 4 modes x present/absent blocks over 2 keys. '
          'fgg_to_json calls float() per cell (C boundary): histories containing it, and real-semiring recursion with more than 2 weights, run on concrete weights (enumeration, labelled). viterbi only on non-recursive grammars (F14). .grad accumulation on leaves is not part of the snapshot. Set-valued label tables compared as sets.',
     technique='symbolic query histories (sequence as solver variables) + SMT identity of storage cells before/after (z3)', design='5/C18'),
@@ -141,7 +141,7 @@ CHECKS = {
          'for all well-typed operand patterns inside the bound and compared, cell by cell and for all element values, with the same torch operation applied to the independently denoted dense tensors; '
          'the representation invariant (at most one physical element per virtual element) is asserted on every PatternedTensor the library constructs. Right level: pattern x default x value corner '
          'combinations are far beyond hand-written cases; the solver quantifies values, the typed enumeration covers structure.',
-    note='Bounds: shapes up to rank 2 / numel 6 (quick), rank 3 / numel 8 (thorough); index types of depth 1; <=3 physical axes; single operations (no compositions). '
+    note='Bounds: shapes up to rank 2 / numel 6 (quick), rank 3 / numel 8 (thorough); index types of depth 1; <=3 physical axes; single operations plus two-step compositions (14 structural/unary first operations x 21 second operations on numeric tensors: every sixth in quick, all in thorough). '
          'Outside the claim: in-place operations on a receiver whose physical tensor is a stride-0 expansion (torch refuses such writes too), stack of tensors whose common default is nan, negative dim for dim_to_dense. '
          'Known finding F6 (log_softmax with infinite default) is confined by its signature.',
     technique='SMT equivalence of patterned vs dense execution (z3), representation-invariant monitor', design='5/C06'),
